@@ -156,3 +156,55 @@ func GenConc(thorough bool) *rapid.Generator[ConcCase] {
 		return c
 	})
 }
+
+// RateConc : the C13 oracle applied while several goroutines convert rates at the same time (the
+// conversions are value methods on independent values: what one goroutine does must not change
+// what another one gets).
+type RateConc struct {
+	Workers [][]RateCase `json:"workers"`
+	Rounds  int          `json:"rounds"`
+}
+
+// CheckRateConc runs CheckC13 on every case from all goroutines at once.
+func CheckRateConc(c RateConc) error {
+	var (
+		wg    sync.WaitGroup
+		mu    sync.Mutex
+		first error
+	)
+	start := make(chan struct{})
+	for w, cases := range c.Workers {
+		wg.Add(1)
+		go func(w int, cases []RateCase) {
+			defer wg.Done()
+			<-start
+			for r := 0; r < c.Rounds; r++ {
+				for i, rc := range cases {
+					if err := CheckC13(rc); err != nil {
+						mu.Lock()
+						if first == nil {
+							first = fmt.Errorf("goroutine %d, round %d, case %d %+v, while other goroutines were converting rates: %w", w, r, i, rc, err)
+						}
+						mu.Unlock()
+						return
+					}
+				}
+			}
+		}(w, cases)
+	}
+	close(start)
+	wg.Wait()
+	return first
+}
+
+// GenRateConc draws 2..8 goroutines with 1..6 rates each.
+func GenRateConc(thorough bool) *rapid.Generator[RateConc] {
+	return rapid.Custom(func(t *rapid.T) RateConc {
+		rate := GenRate(thorough)
+		c := RateConc{Rounds: rapid.SampledFrom([]int{10, 50, 200}).Draw(t, "rounds")}
+		for w, nw := 0, rapid.IntRange(2, 8).Draw(t, "workers"); w < nw; w++ {
+			c.Workers = append(c.Workers, rapid.SliceOfN(rate, 1, 6).Draw(t, "cases"))
+		}
+		return c
+	})
+}
